@@ -91,6 +91,39 @@ def case_log_cond_y(cls, Rp, N, Dy, Dx, callable_form, hist=False):
     return Case(label, fn)
 
 
+def case_callable_is_closed():
+    """`f = cond.integrate_log_conditional_y(p_x)` is the function y -> E_{p_x}[ln p(y|x)] of the p_x it was given: changing p_x
+    in place afterwards does not change f (implementation level; linear and feature classes)"""
+    label = "log_cond_y/callable-closed"
+    def fn(m):
+        import jax.numpy as jnp
+        from gaussian_toolbox import pdf as gt_pdf, conditional as gt_cond, approximate_conditional as gt_ac
+        rng = gen.rng_path(m.seed, label)
+        fails = []
+        Dy, Dx, Dk = 2, 2, 2
+        J = jnp.asarray
+        S = gen.pd_batch(rng, 1, Dy); y = J(gen.points(rng, 1, Dy))
+        conds = {
+            "full": gt_cond.ConditionalGaussianPDF(M=J(rng.standard_normal((1, Dy, Dx))), b=J(rng.standard_normal((1, Dy))), Sigma=J(S)),
+            "lsem": gt_ac.LSEMGaussianConditional(M=J(rng.standard_normal((1, Dy, Dx + Dk))), b=J(rng.standard_normal((1, Dy))), W=J(0.5 * rng.standard_normal((Dk, Dx + 1))), Sigma=J(S)),
+            "rbf": gt_ac.LRBFGaussianConditional(M=J(rng.standard_normal((1, Dy, Dx + Dk))), b=J(rng.standard_normal((1, Dy))), mu=J(rng.standard_normal((Dk, Dx))), length_scale=J(np.ones((Dk, Dx))), Sigma=J(S)),
+        }
+        for name, c in conds.items():
+            try:
+                p = gt_pdf.GaussianPDF(Sigma=J(gen.pd_batch(rng, 1, Dx)), mu=J(rng.standard_normal((1, Dx))))
+                f = c.integrate_log_conditional_y(p)
+                v0 = np.asarray(f(y))
+                direct = np.asarray(c.integrate_log_conditional_y(p, y=y))
+                p.update(J(np.array([0])), gt_pdf.GaussianPDF(Sigma=J(gen.pd_batch(rng, 1, Dx)), mu=J(3.0 + rng.standard_normal((1, Dx)))))
+                v1 = np.asarray(f(y))
+            except Exception as e:
+                fails.append(failure(PROPERTY, f"integrate_log_conditional_y:callable:{name}", f"raised: {type(e).__name__}: {str(e)[:160]}")); continue
+            fail_if(fails, PROPERTY, f"integrate_log_conditional_y:callable:{name}", "callable form and y= form differ", v0, direct)
+            fail_if(fails, PROPERTY, f"integrate_log_conditional_y:callable:{name}", "the callable changed when p_x was updated in place afterwards", v1, v0)
+        return fails
+    return Case(label, fn)
+
+
 def cases(seed, tier):
     rng = gen.rng_path(seed, "C14")
     out = []
@@ -112,6 +145,7 @@ def cases(seed, tier):
     for (cls, Rq, Dy, Dx) in [("full", 2, 2, 3), ("identity", 1, 2, 2), ("diag", 3, 1, 2)]:
         out.append(case_log_cond(cls, 1, Rq, Dy, Dx, hist=True))
         out.append(case_log_cond_y(cls, Rq, Rq, Dy, Dx, Rq % 2 == 0, hist=True))
+    out.append(case_callable_is_closed())
     from . import approx
     out.extend(approx.c14_cases(seed, tier))
     return seeded(out, seed)
